@@ -203,12 +203,43 @@ func serve(port string, h http.HandlerFunc) {
 	}
 }
 
+// bodyTracker closes the response bodies the engine leaves open (client.WaitForHealthcheck and
+// config.operateEndpoint never close them: one leaked connection per reload, which exhausts the
+// descriptor table of a long run).  Harness hygiene only; bodies are closed after the case that
+// produced them.
+type bodyTracker struct {
+	rt   http.RoundTripper
+	mu   sync.Mutex
+	open []io.Closer
+}
+
+func (t *bodyTracker) RoundTrip(r *http.Request) (*http.Response, error) {
+	resp, err := t.rt.RoundTrip(r)
+	if err == nil && resp.Body != nil {
+		t.mu.Lock()
+		t.open = append(t.open, resp.Body)
+		t.mu.Unlock()
+	}
+	return resp, err
+}
+
+func (t *bodyTracker) closeAll() {
+	t.mu.Lock()
+	open := t.open
+	t.open = nil
+	t.mu.Unlock()
+	for _, c := range open {
+		c.Close()
+	}
+}
+
 // ------------------------------------------------------------------ the engine under test
 
 type world struct {
 	l       layout
 	ctl     *sched.Controller
 	hook    *hookCtl
+	bodies  *bodyTracker
 	ha      *fakeHAProxy
 	srv     *httptest.Server
 	rd      *routing.HandlingDataManager
@@ -235,6 +266,8 @@ func getWorld() *world {
 			}
 		}()
 	}
+	w.bodies = &bodyTracker{rt: http.DefaultTransport}
+	http.DefaultClient.Transport = w.bodies
 	w.ctl = sched.New()
 	w.hook = &hookCtl{inner: w.ctl}
 	verifhook.Install(w.hook)
